@@ -50,6 +50,22 @@ structure Specs (P : WParams) (D : Decoder) : Prop where
   pG : ∀ w, P.noX w = true → P.anyLock w = false →
         (D.dec w).x = false ∧ (D.dec w).six = false ∧ (D.dec w).s = 0
   pU : ∀ w, (D.dec w).s + 1 < D.cap → D.dec (P.prepUpd w) = { D.dec w with s := (D.dec w).s + 1 }
+  -- completeness of the admission tests (used for progress, C02)
+  gS_c : ∀ w, (D.dec w).x = false → P.lockGuard .S w = true
+  gSIX_c : ∀ w, (D.dec w).x = false → (D.dec w).six = false → P.lockGuard .SIX w = true
+  gX_c : ∀ w, (D.dec w).x = false → (D.dec w).six = false → (D.dec w).s = 0 → P.lockGuard .X w = true
+  upgG_c : ∀ w, (D.dec w).x = false → (D.dec w).six = true → (D.dec w).s = 0 → P.upgGuard w = true
+  -- version plumbing (C03, C09, C13)
+  noX_iff : ∀ w, P.noX w = true ↔ (D.dec w).x = false
+  verOf_eq : ∀ w, P.verOf w = (D.dec w).ver
+  castVer_eq : ∀ w, P.castVer w = (D.dec w).ver
+  tryNe : ∀ m w v, P.tryGuard m w = true → (P.tryVerNe m w v = true ↔ (D.dec w).ver ≠ v)
+  anyLock_iff : ∀ w, (D.dec w).x = false → (P.anyLock w = false ↔ ((D.dec w).six = false ∧ (D.dec w).s = 0))
+  verIn_idem : ∀ v, D.verIn (D.verIn v) = D.verIn v
+  tgS_c : ∀ w, (D.dec w).x = false → P.tryGuard .S w = true ∨ ∀ w', P.tryGuard .S w' = false
+  tgSIX_c : ∀ w, (D.dec w).x = false → (D.dec w).six = false → P.tryGuard .SIX w = true ∨ ∀ w', P.tryGuard .SIX w' = false
+  tgX_c : ∀ w, (D.dec w).x = false → (D.dec w).six = false → (D.dec w).s = 0 →
+      P.tryGuard .X w = true ∨ ∀ w', P.tryGuard .X w' = false
 
 /-- number of agents currently granted mode `m` -/
 def cnt (s : St) (m : Mode) : Nat := s.agents.countP (fun l => l.grant? == some m)
@@ -61,7 +77,7 @@ def g (l : Loc) (m : Mode) : Nat := if l.grant? == some m then 1 else 0
 def LocOK (P : WParams) : Loc → Prop
   | .acqCas m seen => P.lockGuard m seen = true
   | .upgCas seen => P.upgGuard seen = true
-  | .tryCas m _ seen => P.tryGuard m seen = true
+  | .tryCas m ver seen => P.tryGuard m seen = true ∧ P.tryVerNe m seen ver = false
   | .prepCas seen => P.noX seen = true ∧ P.anyLock seen = false
   | _ => True
 
